@@ -2,6 +2,12 @@ def _sig(c, v):
     """failure signature = listener/group tag + a diagnosis read off the case (only used to group and name failures)"""
     d = c["desc"]
     t = c["tags"][0] if c["tags"] else ""
+    if d.get("kind") == "reference-servemux-vs-server" and v == 1:
+        return "server-differs-from-reference-servemux:1"
+    if d.get("kind") == "with-vs-without-logging-middleware" and v == 1:
+        if d.get("handler_ends_with", "").startswith("panic"):
+            return "panicking-handler-differs-behind-logging-middleware:1"
+        return "exchange-differs-behind-logging-middleware:1"
     if d.get("kind") == "http-exchange" and v == 1:
         o, cfg = d["observed"], d["config"]
         mws = [m["mw"] for m in (cfg.get("middleware") or [])]
@@ -29,9 +35,10 @@ SPEC = {
         "sigfn": _sig,
         "kind": "coqcases", "module": "CorrC17", "harness": "c17", "corr": "Run/CorrC17.v (model of middleware + route table vs the running server.Server)",
         "timeout": 2400,
-        "rule": "each case = one real exchange (HTTP, HTTPS/TLS with a certificate generated at run time, or one gRPC call / reflection listing) against a started server.Server on loopback, re-run in Coq on the model: the monitor checks routing against the AddRoute call list, the enter/exit order of recording middleware, and equality with the run WITHOUT LogRequest/LogResponse; then the full event log incl. the logger's messages is compared with the model. Generation: the refutation witnesses first; every subset of 6 (method,path) pairs x 12 requests x both listeners; every middleware list over {LogRequest, LogResponse, rec1, rec2} up to a length bound x 4 handler programs (echo, partial reads, headers/status, empty); a second routing universe (all subsets of GET/PUT /a/b, GET /a/b/c, DELETE /p0/q, OPTIONS /p0 x 20 requests: prefix-sharing paths, HEAD on GET, other methods); configuration call SEQUENCES (every sequence up to a length bound over {AddRoute x3, GetRoutes} containing both, adds through the builder and through the config object returned by Config.GetHttp[s]ServerConfig(), GetMiddleware/TLS getters, middleware set after reads or replacing an earlier one); seeded random configurations (routes over 7 methods x 8 paths, handler programs, scripted middleware, headers, bodies; half of them as call sequences with read accessors); request bodies sent with Content-Length and WITHOUT (chunked HTTP/1.1, unsized HTTP/2), incl. 300 B - 70 kB (thorough 1.1 MB) bodies; RESPONSE-WRITING handler programs (every sequence up to length 2, thorough 3, over WriteHeader 103/102/404/201, Write, empty Write, Flush, Header().Set: interim then final status, final twice, WriteHeader after Write, none, Flush in between) behind LogResponse bundled/direct/with others and without it, the client's interim 1xx responses being part of what is compared; OVERLAPPING requests (8, thorough 16, at once through each of 5 middleware lists; every handler waits at a barrier until all handlers have been entered and only then reads its body; recorder events are kept per request); every subset of 5 gRPC descriptors with re-registration, initializers, reflection and the gRPC config's getters called between registrations. distinct = by (listener, AddRoute calls, middleware list, request) resp. (registrations, called service); non-trivial = the listener has at least one route / the server at least one registration.",
+        "rule": "each case = one real exchange (HTTP, HTTPS/TLS with a certificate generated at run time, or one gRPC call / reflection listing) against a started server.Server on loopback, re-run in Coq on the model: the monitor checks routing against the AddRoute call list, the enter/exit order of recording middleware, and equality with the run WITHOUT LogRequest/LogResponse; then the full event log incl. the logger's messages is compared with the model. Generation: the refutation witnesses first; every subset of 6 (method,path) pairs x 12 requests x both listeners; every middleware list over {LogRequest, LogResponse, rec1, rec2} up to a length bound x 4 handler programs (echo, partial reads, headers/status, empty); a second routing universe (all subsets of GET/PUT /a/b, GET /a/b/c, DELETE /p0/q, OPTIONS /p0 x 20 requests: prefix-sharing paths, HEAD on GET, other methods); configuration call SEQUENCES (every sequence up to a length bound over {AddRoute x3, GetRoutes} containing both, adds through the builder and through the config object returned by Config.GetHttp[s]ServerConfig(), GetMiddleware/TLS getters, middleware set after reads or replacing an earlier one); seeded random configurations (routes over 7 methods x 8 paths, handler programs, scripted middleware, headers, bodies; half of them as call sequences with read accessors); request bodies sent with Content-Length and WITHOUT (chunked HTTP/1.1, unsized HTTP/2), incl. 300 B - 70 kB (thorough 1.1 MB) bodies; route PATTERNS beyond literals (subtrees, /, {id}, {$}, {p...}) and request paths that need cleaning, compared with a reference http.ServeMux built from the same (method, path) list (CSame 0); handler programs ending in panic(http.ErrAbortHandler) / an ordinary panic after nothing, headers, partial writes or a flush, each run on a server with the middleware list and on one with the logging middleware removed and compared (CSame 1: aborted/completed, bytes received, panic value seen by recovering middleware); RESPONSE-WRITING handler programs (every sequence up to length 2, thorough 3, over WriteHeader 103/102/404/201, Write, empty Write, Flush, Header().Set: interim then final status, final twice, WriteHeader after Write, none, Flush in between) behind LogResponse bundled/direct/with others and without it, the client's interim 1xx responses being part of what is compared; OVERLAPPING requests (8, thorough 16, at once through each of 5 middleware lists; every handler waits at a barrier until all handlers have been entered and only then reads its body; recorder events are kept per request); every subset of 5 gRPC descriptors with re-registration, initializers, reflection and the gRPC config's getters called between registrations. distinct = by (listener, AddRoute calls, middleware list, request) resp. (registrations, called service); non-trivial = the listener has at least one route / the server at least one registration.",
     }],
     "trusted": [
+        "panicking handlers and route patterns beyond clean literals are NOT in the Coq model: they are checked relationally (same handler with vs without the logging middleware; server vs a reference http.ServeMux built from the same route list)",
         "net/http (ServeMux matching of literal 'METHOD /path' patterns, ResponseWriter header-snapshot semantics, TLS, HTTP/1.1 and HTTP/2 framing) and grpc-go dispatch/reflection are modelled by contract; the contract is exercised by this run's cases only",
         "Read on r.Body is modelled as io.ReadFull / io.ReadAll (no short reads); reads after Close and http.Flusher/Hijacker on the wrapped writer are outside the model",
         "gRPC clause: only the registration map is modelled (C17_grpc_registered_partial); callability is observed by the harness",
